@@ -787,6 +787,20 @@ func worldTF() *World {
 	}
 }
 
+// Two files of one module whose reference origins interleave in byte order: the alphabetically first file is short,
+// the second one longer, both hold references (to each other's declarations too).
+func worldPair() *World {
+	return &World{
+		Name:   "pair",
+		Schema: tfSchema(),
+		Funcs:  stdFuncs(),
+		Docs: map[string]string{
+			"a.tf": "output \"a\" {\n  value = var.foo\n}\n",
+			"b.tf": "variable \"foo\" {\n  type = string\n}\noutput \"b\" {\n  value = var.foo\n}\nvariable \"bar\" {\n  default = 1\n}\noutput \"c\" {\n  value = [var.bar, var.foo]\n}\n",
+		},
+	}
+}
+
 func worldTFBad() *World {
 	return &World{
 		Name:   "tfbad",
@@ -1120,7 +1134,7 @@ func modsWorld(unreadable bool) *World {
 }
 
 func allWorlds() []*World {
-	ws := []*World{kinds(), worldTF(), worldTFBad(), hostile(), modsWorld(false), modsWorld(true)}
+	ws := []*World{kinds(), worldTF(), worldPair(), worldTFBad(), hostile(), modsWorld(false), modsWorld(true)}
 	for _, w := range ws {
 		for _, pw := range w.Peers {
 			if err := pw.Schema.Validate(); err != nil {
